@@ -34,13 +34,14 @@ def main():
     qual = sys.argv[2]
     k, n, timeout = int(sys.argv[3]), int(sys.argv[4]), int(sys.argv[5])
     max_fail = int(sys.argv[6]) if len(sys.argv) > 6 else 0
+    only = sys.argv[7] if len(sys.argv) > 7 and sys.argv[7] else None
     repo = os.environ.get("VERIF_REPO", "/repo")
     t0 = time.time()
     try:
         prog, lib = load(groups, repo)
         from pyvc.verify import verify_function
 
-        r = verify_function(prog, lib, qual, timeout_ms=timeout, shard=(k, n), max_fail=max_fail)
+        r = verify_function(prog, lib, qual, timeout_ms=timeout, shard=(k, n), max_fail=max_fail, only=only)
     except Exception:
         import traceback
 
